@@ -536,23 +536,32 @@ impl<A> SimBuilderScoped<'_, A> {
     ///
     /// See [`SimBuilder::node`] for more information.
     pub fn node(&mut self, path: impl Into<ObjectPath>, module_block: impl ModuleBlock) {
-        self.base
-            .node(self.scope.appended(path.into().as_str()), module_block);
+        self.base.node(self.resolve(&path.into()), module_block);
     }
 
     /// Creates a gate on an existing node within the current scope.
     ///
     /// See [`SimBuilder::gate`] for more information.
     pub fn gate(&mut self, path: impl Into<ObjectPath>, gate: &str) -> GateRef {
-        self.base.gate(self.scope.appended(path.into()), gate)
+        self.base.gate(self.resolve(&path.into()), gate)
     }
 
     /// Creates a cluster gate on an existing node within the current scope.
     ///
     /// See [`SimBuilder::gates`] for more information.
     pub fn gates(&mut self, path: impl Into<ObjectPath>, gate: &str, size: usize) -> Vec<GateRef> {
-        self.base
-            .gates(self.scope.appended(path.into()), gate, size)
+        self.base.gates(self.resolve(&path.into()), gate, size)
+    }
+
+    /// A path relative to the current scope as an absolute path. The relative
+    /// path may consist of several modules (`a.b`), which are appended one by one,
+    /// so that the result equals the path parsed from its textual form.
+    fn resolve(&self, relative: &ObjectPath) -> ObjectPath {
+        relative
+            .as_str()
+            .split('.')
+            .filter(|segment| !segment.is_empty())
+            .fold(self.scope.clone(), |path, segment| path.appended(segment))
     }
 }
 
